@@ -66,7 +66,9 @@ output: `kept` (the file's token is used) or `new`, then `stable` -/
 def driver (args : List String) : String :=
   match args with
   | [st, _n] =>
-    let d : Disk := if st = "absent" then none else (unhex st).map (fun b => b.map (fun x => Char.ofNat x.toNat))
+    -- `tmp<hex>`: the token file is absent and a kill left the temporary file of the atomic write behind
+    -- (with any content): it is overwritten, the start is a first start
+    let d : Disk := if st = "absent" || st.startsWith "tmp" then none else (unhex st).map (fun b => b.map (fun x => Char.ofNat x.toNat))
     match d with
     | some c => if wfToken c then "kept stable" else "new stable"
     | none => "new stable"
